@@ -679,9 +679,71 @@ func c16probes(c *core.Ctx) {
 		{"part=a/sub?where=qty>5", `{"sub":[{"id":"s3","qty":9}]}`},
 		{"part=a/sub?where=qty<5", `{"sub":[{"id":"s1","qty":1}]}`},
 		{"part?where=id='c'", `{"part":[{"id":"c","qty":6,"part":[{"id":"c1","qty":2}],"sub":[]}]}`},
+		// an entry its list's condition hides is not there when it is addressed by key either
+		{"part=a/sub=s1", `{"id":"s1","qty":1}`},
+		{"part=a/sub=s2", `nil`},
+		{"part=a/sub=s2/qty", `nil`},
+		{"part=c/sub=s4", `nil`},
+		{"part=a/sub=s3/qty", `{"qty":9}`},
 	} {
 		c.Evaluations++
 		c.Count("probe", tc.path)
+		var got string
+		perr := safeDo(func() error {
+			n, err := nodeutil.ReadJSON(doc)
+			if err != nil {
+				return err
+			}
+			sel, err := node.NewBrowser(m, n).Root().Find(tc.path)
+			if err == nil && sel == nil {
+				got = "nil"
+				return nil
+			}
+			if err != nil || sel == nil {
+				return fmt.Errorf("no selection: %v", err)
+			}
+			if meta.IsLeaf(sel.Meta()) {
+				v, gerr := sel.Get()
+				if gerr != nil {
+					return gerr
+				}
+				if v == nil {
+					got = "nil"
+				} else {
+					got = fmt.Sprintf(`{%q:%s}`, sel.Meta().Ident(), v.String())
+				}
+				return nil
+			}
+			got, err = nodeutil.WriteJSON(sel)
+			return err
+		})
+		if perr != nil || got != tc.want {
+			c.Violation(core.Replay{Kind: "property-failure", Class: "probe-where-nested", Summary: fmt.Sprintf("Find(%q) reads %s (%v); where keeps exactly %s", tc.path, short(got), perr, short(tc.want)),
+				Input: map[string]interface{}{"document": doc, "find": tc.path}, Impl: got, Spec: tc.want})
+		}
+	}
+}
+
+// comparisons with a union operand: the value may be of another member type than the literal
+func c16unionProbes(c *core.Ctx) {
+	m, err := parser.LoadModuleFromString(nil, `module pu { namespace "urn:pu"; prefix pu; revision 2020-01-01;
+  list item { key id; leaf id { type string; } leaf limit { type union { type int32; type string; } } leaf dep { when "limit!=10"; type string; } leaf eq { when "limit=10"; type string; } }
+}`)
+	if err != nil {
+		c.Violation(core.Replay{Kind: "harness", Summary: "C16 union probe module: " + err.Error(), NoInputFound: true})
+		return
+	}
+	doc := `{"item":[{"id":"a","limit":10,"dep":"x","eq":"x"},{"id":"b","limit":"none","dep":"y","eq":"y"},{"id":"c","limit":5,"dep":"z","eq":"z"},{"id":"d","dep":"w","eq":"w"}]}`
+	for _, tc := range []struct{ path, want string }{
+		{"item", `{"item":[{"id":"a","limit":10,"eq":"x"},{"id":"b","limit":"none","dep":"y"},{"id":"c","limit":5,"dep":"z"},{"id":"d"}]}`},
+		{"item?where=limit!%3D10", `{"item":[{"id":"b","limit":"none","dep":"y"},{"id":"c","limit":5,"dep":"z"}]}`},
+		{"item?where=limit%3D10", `{"item":[{"id":"a","limit":10,"eq":"x"}]}`},
+		{"item?where=limit%3D'none'", `{"item":[{"id":"b","limit":"none","dep":"y"}]}`},
+		{"item?where=limit!%3D'none'", `{"item":[{"id":"a","limit":10,"eq":"x"},{"id":"c","limit":5,"dep":"z"}]}`},
+		{"item?where=limit<7", `{"item":[{"id":"c","limit":5,"dep":"z"}]}`},
+	} {
+		c.Evaluations++
+		c.Count("probe", "union "+tc.path)
 		var got string
 		perr := safeDo(func() error {
 			n, err := nodeutil.ReadJSON(doc)
@@ -696,7 +758,7 @@ func c16probes(c *core.Ctx) {
 			return err
 		})
 		if perr != nil || got != tc.want {
-			c.Violation(core.Replay{Kind: "property-failure", Class: "probe-where-nested", Summary: fmt.Sprintf("Find(%q) reads %s (%v); where keeps exactly %s", tc.path, short(got), perr, short(tc.want)),
+			c.Violation(core.Replay{Kind: "property-failure", Class: "probe-union-operand", Summary: fmt.Sprintf("Find(%q) reads %s (%v); the conditions select %s", tc.path, short(got), perr, short(tc.want)),
 				Input: map[string]interface{}{"document": doc, "find": tc.path}, Impl: got, Spec: tc.want})
 		}
 	}
@@ -778,6 +840,7 @@ func C16(c *core.Ctx) {
 	}
 	c16probes(c)
 	c16leafProbes(c)
+	c16unionProbes(c)
 	rng := core.NewRng(c.Seed)
 	var lines []string
 	type pend struct {
